@@ -2,4 +2,5 @@
 //! exactly the decode / re-encode entry points the proptest checks use.
 #![allow(dead_code)]
 pub mod cbor_gen;
+pub mod hosttargets;
 pub mod targets;
